@@ -132,7 +132,8 @@ Definition judge_parse (f : list tok) : Z :=
   | PNoFuel => -1
   end.
 
-(** case kind 2: [2; [[path; content]...]; root path; observed code (0 ok / 1 error / 100 panic); observed tree]
+(** case kind 2: [2; [[path; content]...]; root path; observed code (0 ok / 1 error / 100 panic); observed tree;
+                  observed error text]
     tree = [name; parse tree; [[include key; tree]...]] with keys in first-occurrence order
     tags: ok -> 3000 + min(#files in the tree, 99); error -> [files_err_tag] of the model's diagnostic (4000 + class,
     or 4200 + class of the wrapped message when the error came up through an include; [err_class]: which
@@ -214,6 +215,7 @@ Definition judge_files (f : list tok) : Z :=
   let root := to_path (as_bytes (nth_tok 2 f)) in
   let ocode := as_int (nth_tok 3 f) in
   let obs := nth_tok 4 f in
+  let omsg := as_bytes (nth_tok 5 f) in
   match parse_program_checked files root with
   | None => -1                          (* no verdict of the PEG interpreter on some text: never agreement *)
   | Some (false, _) => -1               (* a parsed name the grammar cannot produce: outside the theorems *)
@@ -222,7 +224,15 @@ Definition judge_files (f : list tok) : Z :=
     match fres_of r with
     | FOk t => if (ocode =? 0) && tok_eqb (enc_ftree t) obs then 3000 + Z.min (ftree_size t) 99 else -1
     | FErr => if ocode =? 1
-              then match r with CompilerValidate.PErr m => files_err_tag m | _ => 4000 end
+              then match r with
+                   | CompilerValidate.PErr m =>
+                     (* a diagnostic of validate (classes below 40, at the root or wrapped by "Include v: ") is
+                        compared byte for byte with the text ParseFrugal returned; syntax errors (the model of
+                        ParseFrugal carries no text for them) and messages that name a path of the host are not *)
+                     let tag := files_err_tag m in
+                     if (tag mod 100 <? 40) && negb (beqb m omsg) then -1 else tag
+                   | _ => 4000
+                   end
               else -1
     | FPanic => if ocode =? 100 then 4100 else -1
     | FFuel => -1                       (* no verdict of the model is never agreement *)
